@@ -1,5 +1,6 @@
 import NfpmModel.Merge
 import NfpmModel.Spec.PlanSpec
+import NfpmModel.Generated.G5KeyTree
 /-
   C13  Overrides affect only their format; per-packager entries stay in theirs.
 
@@ -133,5 +134,9 @@ example :
     (mergeLeaves [(b!"depends", .list [b!"a", b!"b"]), (b!"deb.compression", .str (b!"xz")), (b!"umask", .num 18)]
        [(b!"depends", .list [b!"c"]), (b!"deb.compression", .str []), (b!"deb.fields.{X}", .str [])]).map (·.2)
       = [.list [b!"c"], .str (b!"xz"), .num 18, .str []] := by decide
+
+/-- the translator regenerated, on this run and from the working tree, every table this property is tied through
+    (when an extraction fails the reviewed table stands in so that the model still compiles, and this stops checking) -/
+theorem translator_tables_regenerated : Generated.extracted_G5KeyTree = true := by decide
 
 end Nfpm.Props.C13
